@@ -16,7 +16,8 @@
 (*   lkeys  : Seq([c, l])   keys that are (layer-while-held l) wherever they *)
 (*                          resolve;  swkeys : Seq([c, l]) same for          *)
 (*                          layer-switch                                    *)
-(*   ovr    : Seq([ik, ok]) defoverrides: input key -> output key           *)
+(*   ovr    : Seq([ik, ok, im]) defoverrides: input key -> output key, input *)
+(*            modifiers;  roa : override-release-on-activation               *)
 (*   dl0    : 0, or -1 when the base layer cannot be followed from the text *)
 (*   seq    : [leaders : Seq(code), T, hidden]  sequence leader keys,       *)
 (*            sequence-timeout, whether the input mode is a hidden one      *)
@@ -168,7 +169,8 @@ LayerOfKey(tab, c) == LET I == {i \in DOMAIN tab : tab[i].c = c} IN
 
 MonInit(p) ==
   [\* the parts of the text needed while running (the action trees are folded into c once)
-   p |-> [keys |-> p.keys, lkeys |-> p.lkeys, swkeys |-> p.swkeys, seq |-> p.seq, dl0 |-> p.dl0],
+   p |-> [keys |-> p.keys, lkeys |-> p.lkeys, swkeys |-> p.swkeys, seq |-> p.seq, dl0 |-> p.dl0,
+          ovr |-> p.ovr, roa |-> p.roa],
    c |-> Derived(p),
    osDown |-> {},       \* keys the OS sees pressed
    who |-> <<>>,        \* o \in osDown -> the physical keys that may have put it down (0 = a key no longer held)
@@ -180,7 +182,8 @@ MonInit(p) ==
                         \* monitor cannot follow);   dlp = layer-switch not yet certainly processed
    dlp |-> 0 - 1,
    seqq |-> 0,          \* > 0: a sequence may be active (completeness waived)
-   hid |-> {},          \* held keys pressed while a hidden sequence mode may have been active
+   hid |-> {},          \* keys pressed while a hidden sequence mode may have been active, whose (swallowed) press kanata may still hold
+   hidgone |-> {},      \* ... of these, the ones released since: forgotten once kanata has certainly processed the release (idle tick)
    err |-> ""]
 
 Known(m, c) == c \in KeySet(m.p)
@@ -226,12 +229,16 @@ JudgeRepeat(m, k, out) ==
      ELSE IF Len(reps) = 1 /\ r \notin m.osDown
      THEN IF m.p.seq.hidden /\ k \in m.hid
           THEN Fail(m, "C14 R2: repeat emitted for a key that is up at the OS (its press was swallowed by a hidden sequence mode)")
+          ELSE IF m.p.roa /\ \E i \in DOMAIN m.p.ovr : r \in SeqToSet(m.p.ovr[i].im) /\ m.p.ovr[i].ok \in m.osDown
+          THEN Fail(m, "C14 R2: repeat emitted for a key that is up at the OS (a modifier released by an override with override-release-on-activation and not yet pressed again)")
           ELSE IF r \in ModKeys /\ m.c.unmod \cap m.osDown # {}
           THEN Fail(m, "C14 R2: repeat emitted for a key that is up at the OS (a modifier lifted by unmod / unshift)")
           ELSE Fail(m, "C14 R2: repeat emitted for a key that is up at the OS")
      ELSE IF att = {} \/ m.seqq > 0 THEN ScanOut(m, rest)
      ELSE IF reps = <<>>
-     THEN Fail(m, "C14 R3a: no repeat emitted although the held key is what put an output key down")
+     THEN IF m.p.roa /\ \E i \in DOMAIN m.p.ovr : m.p.ovr[i].ok \in att
+          THEN Fail(m, "C14 R3a: no repeat emitted although the held key is what put an output key down (the output of an override with override-release-on-activation, while it is down)")
+          ELSE Fail(m, "C14 R3a: no repeat emitted although the held key is what put an output key down")
      ELSE IF r \notin m.c.broad[k]
      THEN IF r \in m.c.grpo[k]
           THEN Fail(m, "C14 R3b: the repeat is for the output of an input chord (same group) the held key takes no part in")
@@ -253,10 +260,11 @@ MonIn(m, r) ==
                            !.dlp = IF LayerOfKey(m.p.swkeys, r.c) >= 0 THEN LayerOfKey(m.p.swkeys, r.c) ELSE @,
                            !.dl = IF LayerOfKey(m.p.swkeys, r.c) >= 0 THEN 0 - 1 ELSE @,
                            !.seqq = IF isLeader \/ m.seqq > 0 THEN sq.T + SeqSlack ELSE @,
-                           !.hid = IF isLeader \/ m.seqq > 0 THEN @ \cup {r.c} ELSE @ \ {r.c}]
+                           !.hid = IF isLeader \/ m.seqq > 0 THEN @ \cup {r.c} ELSE @,
+                           !.hidgone = IF isLeader \/ m.seqq > 0 THEN @ \ {r.c} ELSE @]
        IN ScanOut(m1, r.out)
   ELSE IF r.e = "u"
-  THEN LET m1 == [m EXCEPT !.phys = @ \ {r.c}, !.lpress = @ \ {r.c}, !.lseen = @ \ {r.c}, !.hid = @ \ {r.c},
+  THEN LET m1 == [m EXCEPT !.phys = @ \ {r.c}, !.lpress = @ \ {r.c}, !.lseen = @ \ {r.c}, !.hidgone = @ \cup ({r.c} \cap m.hid),
                            !.who = [o \in DOMAIN m.who |-> IF r.c \in m.who[o] THEN (m.who[o] \ {r.c}) \cup {0}
                                                            ELSE m.who[o]]]
        IN ScanOut(m1, r.out)
@@ -268,7 +276,7 @@ MonTick(m, out, idle, cb) ==
   ELSE LET m1 == ScanOut(m, out)
            m2 == [m1 EXCEPT !.seqq = IF @ > 0 THEN @ - 1 ELSE 0]
        IN IF idle
-          THEN [m2 EXCEPT !.recent = {}, !.lseen = m2.lpress,
+          THEN [m2 EXCEPT !.recent = {}, !.lseen = m2.lpress, !.hid = @ \ m2.hidgone, !.hidgone = {},
                           !.dl = IF m2.dlp >= 0 /\ m2.p.dl0 >= 0 THEN m2.dlp ELSE @, !.dlp = 0 - 1]
           ELSE m2
 
